@@ -383,6 +383,10 @@ Plan gen_hist_plan(uint64_t seed, bool oom, int focus) {
   plan.cfg.sink = r.chance(4, 5) ? 0 : r.range(1, 2);
   plan.cfg.salt = r.next();
   plan.backends = 3;
+  // non-gating probe runs (DESIGN.md §5): trees freed before their grammar (yaep.h forbids it), objects used
+  // again after an allocation failure struck them (C17 does not promise it)
+  if (!oom && r.chance(1, 10)) plan.early_free = 1;
+  if (oom && r.chance(1, 5)) plan.probe_reuse = 1;
   PlanBuilder pb(r, pool, plan);
 
   int ntasks = r.range(1, 3);
